@@ -68,6 +68,23 @@ CASES = {
                 tot += a
             return tot
         ''', [({"a": 1, "b": None, "c": 9},), ({},)]),
+    "generator_for_nontail": ('''
+        def _walk(parts):
+            parts = list(parts)
+            while parts:
+                yield parts[-1], len(parts)
+                parts.pop()
+        def anchor(parts, skip):
+            out = []
+            for p, n in _walk(parts):
+                if p in skip:
+                    continue
+                for q in range(n):
+                    if q == 1:
+                        continue
+                    out.append((p, q))
+            return out
+        ''', [(["a", "b", "c"], {"b"}), ([], set()), (["x"], set())]),
     "yield_from": ('''
         def _inner(xs):
             for x in xs:
